@@ -85,6 +85,8 @@ class Agg:
 
 def wname(L):
     f = L.func
+    while is_tag(f, "partial"):
+        f = f[1]
     return f[2] if is_tag(f, "fn") else show(f)
 
 
